@@ -77,6 +77,30 @@ func (in *Interp) step() {
 
 func (in *Interp) tag(t string) { in.Tags[t] = true }
 
+// cost charges n steps (work done inside builtins and operators on containers) and rejects
+// values that grow beyond what the generator is meant to produce.
+func (in *Interp) cost(n int) {
+	in.Steps += n
+	if in.Steps > in.MaxSteps || n > 4000 {
+		in.Over = true
+		panic(budgetExceeded{})
+	}
+}
+
+func (in *Interp) sizeOf(v Value) int {
+	switch x := v.(type) {
+	case *List:
+		return len(x.Items)
+	case *Map:
+		return len(x.M)
+	case *Set:
+		return len(x.Items)
+	case string:
+		return len(x) / 8
+	}
+	return 0
+}
+
 func newScope(parent *scope, act *activation) *scope {
 	return &scope{names: map[string]any{}, consts: map[string]bool{}, parent: parent, act: act}
 }
@@ -140,6 +164,7 @@ func (in *Interp) Run(p *Program) (out Outcome, ok bool) {
 				case *RErr:
 					rerr = e
 				case budgetExceeded:
+					in.Over = true
 				default:
 					panic(r)
 				}
@@ -356,6 +381,7 @@ func (in *Interp) execAssign(s *Assign, sc *scope) (Value, ctl) {
 		if c != ctlNone {
 			return right, c
 		}
+		in.cost(in.sizeOf(left) + in.sizeOf(right))
 		nv, err := BinaryOp(binop, left, right)
 		if err != nil {
 			panic(err)
@@ -371,6 +397,7 @@ func (in *Interp) execAssign(s *Assign, sc *scope) (Value, ctl) {
 			}
 			nv = v
 		} else {
+			// compound assignment: the target (container and index) is evaluated once
 			cont := in.eval(t.X, sc)
 			idx := in.eval(t.I, sc)
 			cur := in.getItem(cont, idx)
@@ -382,7 +409,8 @@ func (in *Interp) execAssign(s *Assign, sc *scope) (Value, ctl) {
 			if err != nil {
 				panic(err)
 			}
-			nv = r
+			in.setItem(cont, idx, r)
+			return NilV{}, ctlNone
 		}
 		cont := in.eval(t.X, sc)
 		idx := in.eval(t.I, sc)
@@ -407,7 +435,12 @@ func (in *Interp) execAssign(s *Assign, sc *scope) (Value, ctl) {
 			if err != nil {
 				panic(err)
 			}
-			nv = r
+			m, ok := obj.(*Map)
+			if !ok {
+				panic(typeErr("cannot set attribute on %s", TypeName(obj)))
+			}
+			m.M[t.Name] = r
+			return NilV{}, ctlNone
 		}
 		obj := in.eval(t.X, sc)
 		m, ok := obj.(*Map)
@@ -474,8 +507,23 @@ func (in *Interp) execFor(s *For, sc *scope) (Value, ctl) {
 		}
 	default: // range0, range1, range2, in
 		itv := in.eval(s.Iter, sc)
-		keys, vals := in.iterate(itv)
-		for i := range keys {
+		var keys, vals []Value
+		live, isList := itv.(*List)
+		if !isList {
+			keys, vals = in.iterate(itv)
+		}
+		for i := 0; ; i++ {
+			if isList {
+				// the list iterator reads the live list: elements appended during the loop are visited
+				if i >= len(live.Items) {
+					break
+				}
+				keys = append(keys[:0], make([]Value, i+1)...)
+				vals = append(vals[:0], make([]Value, i+1)...)
+				keys[i], vals[i] = int64(i), live.Items[i]
+			} else if i >= len(keys) {
+				break
+			}
 			in.step()
 			switch s.Kind {
 			case "range1":
@@ -805,6 +853,7 @@ func (in *Interp) evalBinary(x *Binary, sc *scope) Value {
 	}
 	l := in.eval(x.L, sc)
 	r := in.eval(x.R, sc)
+	in.cost(in.sizeOf(l))
 	switch x.Op {
 	case "==":
 		return Equals(l, r)
@@ -826,6 +875,7 @@ func (in *Interp) evalBinary(x *Binary, sc *scope) Value {
 			return c >= 0
 		}
 	}
+	in.cost(in.sizeOf(l) + in.sizeOf(r))
 	v, err := BinaryOp(x.Op, l, r)
 	if err != nil {
 		panic(err)
@@ -1056,6 +1106,12 @@ func (in *Interp) getAttr(obj Value, name string) Value {
 
 func (in *Interp) call(f Value, args []Value) Value {
 	in.step()
+	for _, a := range args {
+		in.cost(in.sizeOf(a))
+	}
+	if bm, ok := f.(*BoundMethod); ok {
+		in.cost(in.sizeOf(bm.Recv))
+	}
 	switch fn := f.(type) {
 	case *Closure:
 		return in.callClosure(fn, args)
